@@ -344,7 +344,7 @@ func newEventFromUntrustedJSONV1(eventJSON []byte, roomVersion IRoomVersion) (PD
 	}
 
 	if err := checkID(res.eventFields.RoomID, "room", '!'); err != nil {
-		return nil, err
+		return nil, roomIDErrorOnParse(err, eventJSON, &res.eventFields, roomVersion.Version())
 	}
 
 	if err := checkUntrustedEventShape(eventJSON); err != nil {
@@ -402,7 +402,7 @@ func newEventFromTrustedJSONV1(eventJSON []byte, redacted bool, roomVersion IRoo
 	}
 
 	if err := checkID(res.eventFields.RoomID, "room", '!'); err != nil {
-		return nil, fmt.Errorf("RoomID is invalid: %w", err)
+		return nil, fmt.Errorf("RoomID is invalid: %w", roomIDErrorOnParse(err, eventJSON, &res.eventFields, roomVersion.Version()))
 	}
 
 	res.eventJSON = eventJSON
@@ -418,7 +418,7 @@ func newEventFromTrustedJSONWithEventIDV1(eventID string, eventJSON []byte, reda
 	}
 
 	if err := checkID(res.eventFields.RoomID, "room", '!'); err != nil {
-		return nil, err
+		return nil, roomIDErrorOnParse(err, eventJSON, &res.eventFields, roomVersion.Version())
 	}
 
 	res.EventIDRaw = eventID
